@@ -4,7 +4,7 @@ namespace Driver.RingD
 open AwsVerif.Ring Driver
 
 def showRes : Res → List String
-  | .ok off len => [s!"P acq OK len={len}", s!"W off={off}"]
+  | .ok off len => [s!"P acq OK len={len}", s!"W off={off}", "P belongs=100"]   -- granted buffer inside, foreign / straddling not
   | .oom => ["P acq AWS_ERROR_OOM", "P dest_untouched=1"]           -- c15_refusal_leaves_dest
   | .invalid => ["P acq AWS_ERROR_INVALID_ARGUMENT", "P dest_untouched=1"]
 
@@ -16,11 +16,15 @@ def rels (r : Ring) : Nat → Ring
 def events (before : Ring) (tl : Nat) (res : Res) : String :=
   match res with
   | .invalid => "-"
-  | .oom => "LtLh"
-  | .ok _ _ => if before.head = tl then "LtLhShSt" else "LtLhSh"
+  -- with the memory order of each access: tail load-acquire (2) / store-release (3), head relaxed (0)
+  | .oom => "Lt2Lh0"
+  | .ok _ _ => if before.head = tl then "Lt2Lh0Sh0St3" else "Lt2Lh0Sh0"
 
 /-- `aws_ring_buffer_is_valid` after the call: true in every reachable state (`c15_is_valid_holds`) -/
 def validLine : String := "P valid=1"
+
+/-- validity, and `aws_ring_buffer_is_empty` = `head == tail` (true iff nothing outstanding: `c15_is_empty_iff`) -/
+def stateLines (r : Ring) : List String := [validLine, s!"P empty={if r.head = r.tail then 1 else 0}"]
 
 /-- `k` releases injected before atomic access number `p` of the call: `p = 0` is before the tail load (the acquirer
 sees them), `p ≥ 1` is after it (the acquirer decides on the stale tail; the releases only store `tail`, which the
@@ -30,20 +34,20 @@ def doAcquire (r : Ring) (k p : Nat) (argsInvalid : Bool) (f : Ring → Nat → 
     -- the argument check precedes every atomic access; pending releases happen after the call
     let (r', res) := f r r.tail
     let r'' := rels r' k
-    (r'', [s!"W ev={events r r.tail res}"] ++ showRes res ++ [s!"P outstanding={r''.out.length}", validLine])
+    (r'', [s!"W ev={events r r.tail res}"] ++ showRes res ++ [s!"P outstanding={r''.out.length}"] ++ stateLines r'')
   else
     let r0 := if p = 0 then rels r k else r
     let tl := r0.tail
     let r1 := if p = 0 then r0 else rels r0 k
     let (r', res) := f r1 tl
-    (r', [s!"W ev={events r1 tl res}"] ++ showRes res ++ [s!"P outstanding={r'.out.length}", validLine])
+    (r', [s!"W ev={events r1 tl res}"] ++ showRes res ++ [s!"P outstanding={r'.out.length}"] ++ stateLines r')
 
 def isLiveTok (d : String) : Bool := d.startsWith "live" && ((d.drop 4).toString.toNat?).isSome
 
 def step (s : Option Ring) (t : List String) : Option Ring × List String :=
   match s, t with
   | _, ["init", n] => match parseSize? n with
-    | some n => (some (init n), [validLine])
+    | some n => (some (init n), stateLines (init n))
     | none => (s, ["bad-op"])
   | some r, ["acq", k, p, q] => match k.toNat?, p.toNat?, parseSize? q with
     | some k, some p, some q =>
@@ -59,7 +63,9 @@ def step (s : Option Ring) (t : List String) : Option Ring × List String :=
   -- queued as usual, a refusal leaves dest untouched)
   | some r, ["acq", k, p, q, d] => if isLiveTok d then step (some r) ["acq", k, p, q] else (s, ["bad-op"])
   | some r, ["upto", k, p, m, q, d] => if isLiveTok d then step (some r) ["upto", k, p, m, q] else (s, ["bad-op"])
-  | some r, ["rel"] => let r' := release r; (some r', [s!"P outstanding={r'.out.length}", validLine])
+  | some r, ["rel"] =>
+    let r' := release r
+    (some r', (if r.out.isEmpty then [] else ["W relorder=3"]) ++ [s!"P outstanding={r'.out.length}"] ++ stateLines r')
   | _, _ => (s, ["bad-op"])
 
 def component : Component := { σ := Option Ring, init := none, step := step }
